@@ -520,8 +520,9 @@ static void mig_cb(ABT_thread th, void *arg)
 {
     mover_t *m = (mover_t *)arg;
     (void)th;
-    m->cb_count++;
+    /* log first: requesters wait for the counter and then log their next request */
     EV("\"e\":\"MigCb\",\"u\":%d", m->id);
+    m->cb_count++;
 }
 static int last_pool_of_self(void)
 {
@@ -778,7 +779,7 @@ static void scn_migrate(void)
 
 /* Scenario "migrace": the very first migration requests for a unit are issued
  * by two requesters at the same time (no migration record exists yet). */
-static volatile int g_race_go, g_race_stop;
+static volatile int g_race_go, g_race_stop, g_race_done;
 static ABT_thread g_race_t;
 static void race_target(void *a)
 {
@@ -801,11 +802,12 @@ static void *race_req(void *p)
     EV("\"e\":\"Note\",\"what\":\"first-request\",\"tgt\":%d", tgt);
     int r = ABT_thread_migrate_to_pool(g_race_t, g_pool[tgt][0]);
     EV("\"e\":\"Note\",\"what\":\"first-request-ret\",\"tgt\":%d,\"ret\":%d", tgt, r);
+    __sync_fetch_and_add(&g_race_done, 1);
     return NULL;
 }
 static void scn_migrace(void)
 {
-    g_race_go = g_race_stop = 0;
+    g_race_go = g_race_stop = g_race_done = 0;
     EV("\"e\":\"Exec\",\"nu\":1,\"nes\":%d,\"cfg\":%d,\"ext\":2", g_nes, g_cfg);
     EV("\"e\":\"Create\",\"by\":0,\"u\":1,\"kind\":0,\"named\":1,\"arg\":10,\"pool\":0");
     CHK(ABT_thread_create(g_pool[0][0], race_target, NULL, ABT_THREAD_ATTR_NULL, &g_race_t));
@@ -817,11 +819,15 @@ static void scn_migrace(void)
         ABT_thread_yield();
     while (!g_race_go)
         ABT_thread_yield();
-    /* let the requesters finish while the primary stream keeps running */
-    for (int i = 0; i < 40; i++) {
+    /* the requesters must have returned before the unit may terminate and be freed
+     * (a request for a unit that is being freed is a use after free); the primary
+     * stream keeps running meanwhile */
+    while (g_race_done < 2) {
         ABT_thread_yield();
         abtv_idle_hint();
     }
+    for (int i = 0; i < 10; i++)
+        ABT_thread_yield();
     g_race_stop = 1;
     EV("\"e\":\"FreeCall\",\"by\":0,\"u\":1");
     CHK(ABT_thread_free(&g_race_t));
